@@ -14,32 +14,32 @@ import (
 func init() {
 	register(&Rule{
 		ID: "R19.1", Props: []string{"C19"}, Engine: "flow + guard",
-		Text: "patch in, unpatch out, reject unknown names first: in demultiplexingBlobAccess.{Get,GetFromComposite,Put,GetCapabilities} the backend, its name and its patcher all come from one getBackend call on the instance name of the operation's digest, every backend call is dominated by that call's nil error, every digest handed to the backend went through that patcher's PatchDigest (PatchInstanceName for capabilities), and errors are wrapped with that backend's name; in FindMissing every digest is added to its partition through the partition's own patcher, each partition's backend is asked about exactly that partition's set, and every digest of its answer goes through the same partition's UnpatchDigest into the result",
+		Text:  "patch in, unpatch out, reject unknown names first: in demultiplexingBlobAccess.{Get,GetFromComposite,Put,GetCapabilities} the backend, its name and its patcher all come from one getBackend call on the instance name of the operation's digest, every backend call is dominated by that call's nil error, every digest handed to the backend went through that patcher's PatchDigest (PatchInstanceName for capabilities), and errors are wrapped with that backend's name; in FindMissing every digest is added to its partition through the partition's own patcher, each partition's backend is asked about exactly that partition's set, and every digest of its answer goes through the same partition's UnpatchDigest into the result",
 		Floor: 8, MustExist: true, Run: runR191,
 	})
 	register(&Rule{
 		ID: "R19.4", Props: []string{"C19"}, Engine: "guard (guarded update)",
-		Text: "longest-prefix lookup never forgets a match: in InstanceNameTrie.GetLongestPrefix the best-so-far value is replaced only by a node value that was tested >= 0, and a final component's value is returned only when tested >= 0; otherwise the best-so-far is returned",
+		Text:  "longest-prefix lookup never forgets a match: in InstanceNameTrie.GetLongestPrefix the best-so-far value is replaced only by a node value that was tested >= 0, and a final component's value is returned only when tested >= 0; otherwise the best-so-far is returned",
 		Floor: 2, MustExist: true, Run: runR194,
 	})
 	register(&Rule{
 		ID: "R19.5", Props: []string{"C19"}, Engine: "order (use after overwrite) + guard",
-		Text: "hierarchical FindMissing reports a digest missing exactly when its ancestor chain is exhausted: in the pruning loop of hierarchicalInstanceNamesBlobAccess.FindMissing an element is never read through its pointer after it was overwritten by the swap-remove of the same iteration; a digest is added to the result only when it has no ancestors left and the last ancestor asked about was reported missing; an element whose ancestor was found is dropped without being reported",
+		Text:  "hierarchical FindMissing reports a digest missing exactly when its ancestor chain is exhausted: in the pruning loop of hierarchicalInstanceNamesBlobAccess.FindMissing an element is never read through its pointer after it was overwritten by the swap-remove of the same iteration; a digest is added to the result only when it has no ancestors left and the last ancestor asked about was reported missing; an element whose ancestor was found is dropped without being reported",
 		Floor: 3, MustExist: true, Run: runR195,
 	})
 	register(&Rule{
 		ID: "R20.1", Props: []string{"C20"}, Engine: "own (who may construct / call)",
-		Text: "validated-constructor discipline in pkg/digest: Function.newDigestUnchecked is called only from Function.NewDigest (after the hash-length, lowercase-hex and non-negative-size checks) and from Generator.Sum; Digest values are built only there and in the instance-name patching / parent-enumeration helpers; InstanceName values are built only after validation (NewInstanceName*), by the patcher and by projections of an existing digest; every new construction site is a violation until reviewed",
+		Text:  "validated-constructor discipline in pkg/digest: Function.newDigestUnchecked is called only from Function.NewDigest (after the hash-length, lowercase-hex and non-negative-size checks) and from Generator.Sum; Digest values are built only there and in the instance-name patching / parent-enumeration helpers; InstanceName values are built only after validation (NewInstanceName*), by the patcher and by projections of an existing digest; every new construction site is a violation until reviewed",
 		Floor: 8, MustExist: true, Run: runR201,
 	})
 	register(&Rule{
 		ID: "R20.2", Props: []string{"C20"}, Engine: "table",
-		Text: "separators are reserved and the function tables agree: every keyword the ByteStream path parsers split on (blobs, compressed-blobs, uploads, …) is a key of reservedInstanceNameKeywords, so a valid instance name cannot contain a separator; every element of SupportedDigestFunctions has its case in getBareFunction whose enum value equals the case label, all enum values fit the two-digit packing (< 100)",
+		Text:  "separators are reserved and the function tables agree: every keyword the ByteStream path parsers split on (blobs, compressed-blobs, uploads, …) is a key of reservedInstanceNameKeywords, so a valid instance name cannot contain a separator; every element of SupportedDigestFunctions has its case in getBareFunction whose enum value equals the case label, all enum values fit the two-digit packing (< 100)",
 		Floor: 3, MustExist: true, Run: runR202,
 	})
 	register(&Rule{
 		ID: "R20.4", Props: []string{"C20"}, Engine: "flow (aliasing)",
-		Text: "set operations never write into another set's storage: in pkg/digest a Set built from a sub-slice of another set's backing array has its capacity clipped (three-index slice) whenever the function goes on to append to a set; SetBuilder.Build sorts and de-duplicates before constructing the Set",
+		Text:  "set operations never write into another set's storage: in pkg/digest a Set built from a sub-slice of another set's backing array has its capacity clipped (three-index slice) whenever the function goes on to append to a set; SetBuilder.Build sorts and de-duplicates before constructing the Set",
 		Floor: 3, MustExist: true, Run: runR204,
 	})
 }
